@@ -1480,7 +1480,6 @@ package crypto
 
 //@ func BatchVerifyBLSSignaturesOneMessage mode int props C03 C19 C09
 //@ dead-return 2   // bls_batch_verify decides every entry (VALID or INVALID) for a 128-byte hash
-//@ dead-return 3   // crypto/rand.Read does not fail
 //@ requires noTypedNilKeys(pks) && len(pks) <= 16777215
 //@ assigns ghost(kmac)
 //@ ensures [one-verdict-per-signature] len(result0) == len(sigs) && fresh(result0)
@@ -1669,6 +1668,7 @@ package crypto
 //@ loop 3 assigns elemsG1[1:nb_pks+1], tmp_hashes[0:tmp_hashes_size], i, data_offset, index_offset
 //@ loop 4 invariant [range] 0 <= j && j <= hashes_per_pk[i-1] && index_offset == isum(hashes_per_pk, i-1) + j && data_offset == 128*index_offset
 //@ loop 4 invariant [partial-sums-agree long] e1sum(tmp_hashes, j) == e1sum(h2cSeqAt(&hashes[128*isum(hashes_per_pk, i-1)]), j)
+//@ loop 4 exit [group-sum-is-the-spec-sum] e1sum(tmp_hashes, hashes_per_pk[i-1]) == at(old(pdkG1(sig, hashes, hashes_per_pk)), i)
 //@ loop 4 assigns tmp_hashes[0:tmp_hashes_size], j, data_offset, index_offset
 
 // ---- VerifyBLSSignatureManyMessages (C02): input validation, error classes, and the preconditions of the two C functions
